@@ -21,7 +21,7 @@ use std::sync::Arc;
 
 use crossbeam_channel as cbc;
 use libfs::{
-    allocate_file, copy_file_bytes, copy_owner, copy_permissions, copy_timestamps, next_sparse_segments, probably_sparse, reflink, sync, FileType
+    allocate_file, copy_file_bytes, copy_owner, copy_permissions, copy_timestamps, is_same_file, next_sparse_segments, probably_sparse, reflink, sync, FileType
 };
 use log::{debug, error, info, warn};
 use walkdir::WalkDir;
@@ -44,6 +44,13 @@ impl CopyHandle {
     pub fn new(from: &Path, to: &Path, config: &Arc<Config>) -> Result<CopyHandle> {
         let infd = File::open(from)?;
         let metadata = infd.metadata()?;
+
+        // The destination may designate the source itself (another
+        // spelling, a hard link or a symlink); creating it below would
+        // truncate the source.
+        if to.exists() && is_same_file(from, to)? {
+            return Err(XcpError::InvalidDestination("Source and destination are the same file.").into());
+        }
 
         if needs_backup(to, config)? {
             let backup = get_backup_path(to)?;
